@@ -203,3 +203,62 @@ def gen_k3(rng, n, mode_mix=("consistent", "free"), nops=(3, 6, 10), weighted=Tr
         out.append([3, kb, roots, data, ops])
         meta.append({"mode": mode, "hidden": hidden, "nobj": len(kb), "kinds": sorted(set(o[0] for o in kb))})
     return out, meta
+
+
+def gen_k3_late(rng, n):
+    """knowledge added over several add_knowledge calls: a first call with some roots, later calls (op 13) with the others,
+    structurally equal twins likely; has_contradiction() probed between the calls"""
+    out, meta = [], []
+    while len(out) < n:
+        targeted = rng.random() < 0.5
+        if targeted:
+            # one rule written three (or four) times as separate objects over shared atoms, one copy asserted against the atoms
+            kind = rng.choice([2, 3, 4])
+            k = 2 if kind == 4 else rng.choice([2, 3])
+            kb = [[0, [], [F(1), F(1), [], 1], []] for _ in range(k)]
+            p = params(rng, k, weighted=False)
+            ncopy = rng.choice([3, 3, 4])
+            for _ in range(ncopy):
+                kb.append([kind, list(range(k)), p, []])
+            roots = list(range(k, k + ncopy))
+            vals = [rng.choice([F(0), F(1)]) for _ in range(k)]
+            v = eval_kb(kb, dict(enumerate(vals)))[k]
+            data_all = [[i, [vals[i], vals[i]]] for i in range(k)]
+            for c in rng.sample(roots, rng.choice([1, 1, 2])):
+                data_all.append([c, [1 - v, 1 - v]] if rng.random() < 0.8 else [c, [v, v]])
+            first, late = roots[:1], roots[1:]
+        else:
+            kb = gen_kb(rng, weighted=rng.random() < 0.3, nforms=rng.choice([2, 3, 4]), twins=0.6)
+            roots = roots_of(rng, kb, extra=0)
+            kb, roots = restrict(kb, roots)
+            if len(roots) < 2:
+                continue
+            k0 = rng.randrange(1, len(roots))
+            first, late = roots[:k0], roots[k0:]
+            data_all, _ = gen_data(rng, kb, "free")
+        reg = reachable(kb, first)
+        data = [d for d in data_all if d[0] in reg]
+        pending = [d for d in data_all if d[0] not in reg]
+
+        def some_ops(m):
+            res = []
+            for op in gen_ops(rng, kb, first, m, model_level=0.7):
+                if op[0] in (3, 4, 5) and op[1] >= 0 and op[1] not in reg:
+                    op[1] = -1
+                res.append(op)
+            return res
+        ops = some_ops(rng.choice([0, 1, 2])) + [[9]]
+        for r in late:
+            ops.append([13, r])
+            reg |= reachable(kb, [r])
+            for d in [d for d in pending if d[0] in reg]:
+                ops.append([8, d[0], d[1]])
+                pending.remove(d)
+            if targeted:
+                ops.append(rng.choice([[3, -1], [3, -1], [5, -1, 30]]))
+            else:
+                ops += some_ops(rng.choice([1, 2, 3]))
+            ops.append([9])
+        out.append([3, kb, first, data, ops])
+        meta.append({"mode": "late-targeted" if targeted else "late-random", "hidden": None, "nobj": len(kb), "kinds": sorted(set(o[0] for o in kb))})
+    return out, meta
